@@ -20,6 +20,8 @@ def c03_profile(tier, **kw):
 class Spec(MQSpec):
     prop = 'C03'
     level = 'exploration'
+    keep_backbone = True
+    protected_keys = ('outputs_required',)
 
     def __init__(self, tier='quick'):
         super().__init__(tier)
